@@ -75,7 +75,7 @@ class C13(CurveCheck):
                 pkb.append((le(n ^ (1 << 255)), "valid-signflip"))
                 pkb.append((le((n + 1) % 2**256), "valid-plus1"))
                 pkb.append((le(n ^ (1 << rng.randrange(255))), "valid-bitflip"))
-        for _ in range(100 if q else 3000):
+        for _ in range(100 if q else 1000):
             pkb.append((ed.compress(rand_point(rng)), "prime-order"))
         for n in (0, 1, 2, 31, 33, 34, 63, 64, 65):
             pkb.append((bytes(rng.getrandbits(8) for _ in range(n)), "bad-length"))
@@ -131,10 +131,10 @@ class C13(CurveCheck):
             if k < 0.15:
                 return rng.choice(T)
             return rand_point(rng, T if k < 0.6 else None)
-        for _ in range(120 if q else 4000):
+        for _ in range(120 if q else 800):
             a, b = rs(), rs()
             cs.append(Case("ident %s %s" % (hx(le(a)), hx(le(b))), "ident"))
-        for _ in range(150 if q else 5000):
+        for _ in range(150 if q else 1500):
             p1, p2, a = ed.compress(rp()), ed.compress(rp()), rs()
             cs.append(Case("pkop add %s %s" % (hx(p1), hx(p2)), "pkop:add"))
             cs.append(Case("pkop sub %s %s" % (hx(p1), hx(p2)), "pkop:sub"))
